@@ -111,6 +111,14 @@ var constructs10 = map[string]string{
 	"nul_bytes":              "SELECT a\x00 FROM {T}\x00",
 	"invalid_utf8":           "SELECT '\xff\xfe' AS v FROM {T} WHERE s = '\xc3'",
 	"dual_star":              "SELECT * FROM dual",
+	"cte_dual_star":          "WITH c AS (SELECT * FROM dual) SELECT * FROM c",
+	"cte_dual_star_distinct": "WITH c AS (SELECT * FROM dual) SELECT DISTINCT * FROM c",
+	"cte_dual_star_union":    "WITH c AS (SELECT * FROM dual) SELECT * FROM c UNION SELECT * FROM c",
+	"cte_dual_star_order":    "WITH c AS (SELECT * FROM dual) SELECT * FROM c ORDER BY t",
+	"derived_dual_distinct":  "SELECT DISTINCT * FROM (SELECT * FROM dual) x",
+	"cte_star_twice":         "WITH c AS (SELECT * FROM {T}), d AS (SELECT * FROM c) SELECT DISTINCT * FROM d UNION SELECT * FROM c",
+	"parallel_hash_panic":    "SELECT * FROM {T} x PARALLEL LEFT HASH_JOIN {U} y ON x.a = y.c AND kaboom(1) = 1",
+	"parallel_join_inner":    "SELECT * FROM {T} PARALLEL JOIN {U} ON a > c",
 	"dual_subquery":          "SELECT (SELECT a FROM {T}) AS v FROM dual",
 	"select_star_alias":      "SELECT x.* FROM {T} x",
 	"window_function":        "SELECT ROW_NUMBER() OVER (ORDER BY a) AS v FROM {T}",
@@ -154,6 +162,24 @@ func doc10(kind string) map[string]any {
 	switch kind {
 	case "empty":
 		return map[string]any{"t": []any{}, "u": []any{}}
+	case "wide":
+		// more rows than any fixed number of workers or slots: 40 keys on one side, rows with an inner dimension at the end
+		rows := []any{}
+		for i := 1; i <= 40; i++ {
+			rows = append(rows, map[string]any{"a": float64(i), "s": fmt.Sprintf("s%d", i), "mixed": float64(i), "n": []any{map[string]any{"p": float64(i)}}, "o": map[string]any{"k": float64(i)}})
+		}
+		u := []any{}
+		for i := 1; i <= 20; i++ {
+			u = append(u, map[string]any{"c": float64(i * 2)})
+		}
+		return map[string]any{"t": rows, "u": u}
+	case "grid":
+		// rows that are arrays themselves (an inner dimension)
+		rows := []any{}
+		for i := 1; i <= 24; i++ {
+			rows = append(rows, []any{map[string]any{"a": float64(i)}, map[string]any{"a": float64(-i)}})
+		}
+		return map[string]any{"t": rows, "u": []any{map[string]any{"c": float64(1)}, map[string]any{"c": float64(2)}}}
 	case "wrongshape":
 		return map[string]any{"t": map[string]any{"a": "x", "n": float64(3), "s": nil, "o": []any{1.0}}, "u": "scalar", "extra": nil}
 	}
